@@ -135,7 +135,7 @@ def concretize(rng, idx, beh, prop, force_mode=None):
             x = set(st["x"]) if st else set()
             has = opt and "cC" in opt["opts"]
             if x:
-                arg = rng.choice(["10", "10 12", "8 10 65001"])
+                arg = rng.choice(["10", "10 65001", "9 10 11"])   # cookie (+ codes no token uses)
             else:
                 arg = "65002" if has else rng.choice(["10", "65002", ""])
             nodes.append({"kind": kind, "impl": "forward_edns0opt", "arg": arg})
@@ -212,7 +212,7 @@ def composite_case(rng, idx, prop):
         elif k == "ecs":
             pre.append({"kind": k, "impl": "ecs_handler", "forward": rng.random() < 0.5, "preset": rng.random() < 0.5})
         elif k == "fwdopt":
-            pre.append({"kind": k, "impl": "forward_edns0opt", "arg": rng.choice(["10", "12", "8 10"])})
+            pre.append({"kind": k, "impl": "forward_edns0opt", "arg": rng.choice(["10", "65001", "9 10"])})
         elif k == "ttl":
             pre.append({"kind": k, "impl": "ttl", "arg": "7"})
         else:
@@ -249,7 +249,7 @@ def impls(case, seq="main"):
     return [n["impl"] for n in case["nodes"]]
 
 
-def attribute(case, trace, line_in_trace):
+def attribute(case, trace, line_in_trace, prop="C03"):
     """name the step TLC could not explain: (signature, text)"""
     ev = trace[line_in_trace - 1] if 0 < line_in_trace <= len(trace) else None
     prev = trace[line_in_trace - 2] if line_in_trace >= 2 else None
@@ -283,9 +283,12 @@ def attribute(case, trace, line_in_trace):
             "the upstream received a query that is not 'one fresh OPT, only explicitly forwarded options': %s" % json.dumps(ev)
     if e == "Reply":
         copt = "opt" if case["opt"] else "noopt"
-        sig = "handle:reply:%s:%s:id=%s:qq=%s:qr=%s:ra=%s:tc=%s:nopt=%s:do=%s:opts=%s" % (
-            case["tr"], copt, ev["id"], ev["qq"], int(ev["qr"]), int(ev["ra"]), int(ev["tc"]), ev["nopt"],
-            ev["opt"].get("do"), ",".join(ev["opt"].get("opts", [])))
+        if prop == "C03":
+            sig = "handle:reply:%s:%s:id=%s:qq=%s:qr=%s:ra=%s:tc=%s" % (
+                case["tr"], copt, ev["id"], ev["qq"], int(ev["qr"]), int(ev["ra"]), int(ev["tc"]))
+        else:
+            sig = "handle:reply:%s:nopt=%s:do=%s:opts=%s" % (
+                copt, ev["nopt"], ev["opt"].get("do"), ",".join(ev["opt"].get("opts", [])))
         if case["mal"] not in ("ok", "ok1x"):
             sig = "handle:reply-to-malformed:%s" % case["mal"]
         return sig, "the reply is not what Handle owes for the state the chain left (%s; last snapshot %s)" % (
@@ -324,7 +327,7 @@ def run_cases(ctx, prop, binary, cases, label):
                                     chunk=2500, max_reject=8)
     for idx, info in rej:
         c, r, ti = owner[idx]
-        sig, what = attribute(c, traces[idx], info.get("line_in_trace") or 0)
+        sig, what = attribute(c, traces[idx], info.get("line_in_trace") or 0, prop)
         sig = classify_known(c, sig)
         ctx.violation(sig, what + " [chain %s, mode %s]" % (",".join(impls(c)), c["mode"]),
                       {"case": strip(c), "trace": traces[idx], "line_in_trace": info.get("line_in_trace")})
